@@ -244,7 +244,9 @@ func lexSegment(l *lexer) error {
 	r := l.next()
 	switch {
 	case unicode.IsLetter(r):
-		return lexLiteral(l)
+		// The first letter is consumed, the rest of the literal is optional.
+		l.acceptRun(isLiteral)
+		return l.emit(tokenLiteral)
 	case r == '*':
 		rn := l.next()
 		if rn == '*' {
